@@ -84,7 +84,7 @@ type Case struct {
 	Keys     []string `json:"keys"`
 	Prologue []COp    `json:"prologue,omitempty"` // executed sequentially before the clients start
 	Clients  [][]COp  `json:"clients"`
-	Epilogue bool     `json:"epilogue,omitempty"` // afterwards: end open transactions, autocommit read of every key
+	Epilogue bool     `json:"epilogue,omitempty"` // afterwards: open transactions read every key, are ended, then an autocommit read of every key
 	Sched    Schedule `json:"sched"`
 	// Light: run on the light backend (same use cases and pool, in-memory key-value provider instead of Badger)
 	Light bool `json:"light,omitempty"`
@@ -371,6 +371,14 @@ func Execute(c Case, trace bool) *Run {
 			}
 			sort.Ints(slots)
 			n := 0
+			// every transaction that is still open reads every key once more: whatever order the
+			// concurrent phase left behind must look the same to all isolation levels
+			for _, s := range slots {
+				for ki := range c.Keys {
+					r.do(-2, n, COp{K: "get", Slot: s, Key: ki}, 0)
+					n++
+				}
+			}
 			for _, s := range slots {
 				r.do(-2, n, COp{K: "rollback", Slot: s}, 0)
 				n++
